@@ -20,7 +20,10 @@ LEVEL = 'exploration'
 RULE = ('case = one item description (JSON dict as in library/*.json) offered to server.items.parse_item in the theory that '
         'precedes it: (a) every item of the 43 library files in place, (b) generated sequences of 1-3 descriptions over theory `list` '
         '(definitions with and without hostile features - self reference, fresh type variable on the right, non-variable / repeated '
-        'arguments, extra variables, wrong head, non-equations, existing or overloaded names, the same name twice - axiomatic '
+        'arguments, extra variables, wrong head, non-equations, existing or overloaded names, the same name twice; definitions of '
+        'overloaded constants (library ones at a fresh instance, freshly declared ones) whose right side mentions the constant at '
+        'several instances in every order: overlapping first / middle / last / twice around a legal one / only overlapping / only '
+        'non-overlapping (legal) - axiomatic '
         'constants incl. overloaded ones followed by instance definitions, axioms/theorems with attributes and proof data, '
         'axiomatic types, datatypes, recursive functions and inductive predicates over them with correct and broken shapes); '
         'distinct = hash of the description(s); non-trivial = the item was accepted and judged by all oracles, or carried a hostile feature')
@@ -40,11 +43,13 @@ ASSUMPTIONS = ['an item counts as accepted when parse_item leaves .error None AN
 REQUIRED = {'quick': {'library_items_accepted': 4000, 'library_defs_judged': 140, 'library_theories': 43,
                       'O1_definitions_judged': 1500, 'O2_statements_checked': 12000, 'O3_json_roundtrips': 8000,
                       'O3_edit_roundtrips': 8000, 'gen_def_hostile_rejected': 800, 'gen_items_accepted': 4000,
-                      'gen_items_rejected': 1500, 'sig_crosschecks': 40},
+                      'gen_items_rejected': 1500, 'sig_crosschecks': 40,
+                      'multiocc_definitions': 800, 'multiocc_accepted_and_judged_by_O1': 250},
             'thorough': {'library_items_accepted': 4000, 'library_defs_judged': 140, 'library_theories': 43,
                          'O1_definitions_judged': 30000, 'O2_statements_checked': 150000, 'O3_json_roundtrips': 100000,
                          'O3_edit_roundtrips': 100000, 'gen_def_hostile_rejected': 15000, 'gen_items_accepted': 80000,
-                         'gen_items_rejected': 30000, 'sig_crosschecks': 40}}
+                         'gen_items_rejected': 30000, 'sig_crosschecks': 40,
+                         'multiocc_definitions': 15000, 'multiocc_accepted_and_judged_by_O1': 5000}}
 SHARD_TIMEOUT = {'quick': 900, 'thorough': 7200}
 BASE = 'list'
 
@@ -175,6 +180,15 @@ class Driver:
         if ty == 'def':
             probs = O.definition_problems(self.sig, fields['name'], fields['type'], fields['prop'])
             c('O1_definitions_judged')
+            rhs = O.definition_rhs(fields['prop'])
+            occ = O.self_occurrence_types(fields['name'], rhs) if rhs is not None else []
+            c('O1_rhs_occurrences_of_defined_name_judged', len(occ))
+            if len(occ) >= 2:
+                c('O1_definitions_mentioning_own_name_at_several_types')
+                if any(O.overlap(U, fields['type']) for U in occ) and not O.overlap(occ[-1], fields['type']):
+                    c('O1_overlapping_occurrence_followed_by_non_overlapping_one')
+            if occ and not any(O.overlap(U, fields['type']) for U in occ):
+                c('O1_definitions_mentioning_own_name_only_at_non_overlapping_types')
             if self.kind == 'lib':
                 c('library_defs_judged')
             for key, text in probs:
@@ -381,7 +395,7 @@ def base_setup(base=BASE):
     return theory.thy, sig
 
 
-HOSTILE_DEF = {'self', 'tvar', 'nonvar', 'repeat', 'extra', 'head', 'noteq', 'swap', 'seqdup', 'overdup'}
+HOSTILE_DEF = {'self', 'selfmulti', 'tvar', 'nonvar', 'repeat', 'extra', 'head', 'noteq', 'swap', 'seqdup', 'overdup'}
 
 
 def run_sequence(ctx, base_thy, base_sig, family, descs, witness_extra=None, base=BASE):
@@ -410,6 +424,11 @@ def run_sequence(ctx, base_thy, base_sig, family, descs, witness_extra=None, bas
                 ctx.count('gen_def_hostile_accepted' if acc else 'gen_def_hostile_rejected')
         else:
             ctx.count('plain_%s_%s' % (fam, 'accepted' if acc else 'rejected'))
+        if d.get('_multi'):
+            ctx.count('multiocc_%s_%s' % (d['_multi'], 'accepted' if acc else 'rejected'))
+            ctx.count('multiocc_definitions')
+            if acc:
+                ctx.count('multiocc_accepted_and_judged_by_O1')
     theory.thy = base_thy
     return results
 
